@@ -179,6 +179,26 @@ def pre_analysis(w):
     return pre, refuse
 
 
+def twin_classes(w, pre):
+    """how a pre-existing regular file relates to the file that replaces it (re-merge shapes)"""
+    cl = set()
+    for p, rec in w.entries():
+        if rec["type"] != "file" or pre[p][0] != "file":
+            continue
+        d, b = os.path.split(p)
+        old = fsx.entry(os.path.join(os.path.realpath(os.path.join(w.root, d)), b))
+        perms_differ = old["mode"] != rec["mode"] or _owner(old) != _owner(rec)
+        if old["size"] == rec["size"] and old["mtime"] == rec["mtime"]:
+            cl.add("preexisting_same_size_mtime_diff_perms" if perms_differ else "preexisting_same_size_mtime_same_perms")
+            if old["sha"] != rec["sha"]:
+                cl.add("preexisting_same_size_mtime_other_content")
+        elif old["sha"] == rec["sha"]:
+            cl.add("preexisting_same_content_other_mtime")
+        if old["sha"] == rec["sha"] and old["mtime"] == rec["mtime"] and not perms_differ:
+            cl.add("preexisting_identical")
+    return cl
+
+
 def classify(w, pre, refuse):
     cl = set()
     ents = w.entries()
@@ -195,6 +215,7 @@ def classify(w, pre, refuse):
             cl.add("big_file")
         if rec["type"] == "file" and rec["mode"] & 0o6000:
             cl.add("setid_file")
+    cl |= twin_classes(w, pre)
     if fsx.inode_groups({p: r for p, r in ents}):
         cl.add("hardlink_group")
     if any(e["path"].endswith("#new") for e in w.case["root"]):
